@@ -102,6 +102,8 @@ ENTRIES = [
     ('t.minus(t,J,J)', 't', 'd << t.minus(s, Ja, Jb) << Ja << Jb;'),
     ('t+vector', 't', 'd << (t + s.coeffs());'),
     ('vector+t', 't', 'typename T::DataType v = s.coeffs() + t; d << v;'),
+    ('t-vector', 't', 'd << (t - s.coeffs());'),
+    ('vector-t', 't', 'typename T::DataType v = s.coeffs() - t; d << v;'),
     ('t*scalar', 't', 'd << (t * S(2)) << (S(2) * t) << (t / S(2));'),
     ('J*t', 't', 'Ja.setIdentity(); d << (Ja * t);'),
     ('tangent-coeffs', 't', 'd << t.coeffs() << t.data()[0] << t[0] << (int)t.size();'),
@@ -125,6 +127,7 @@ ENTRIES = [
     ('tangent=', 'tm', 't = s; d << t; t = so.coeffs(); d << t;'),
     ('tangent+=', 'tm', 't += s; d << t; t -= s; d << t; t += so.coeffs(); t -= so.coeffs(); d << t;'),
     ('tangent*=', 'tm', 't *= S(2); d << t; t /= S(2); d << t;'),
+    ('tangent-comma-initialiser', 'tm', 't.setZero(); t << so.coeffs(); d << t;'),
     ('tangent<<', 'tm', 'typename T::DataType v = so.coeffs(); t.coeffs() = v; d << t;'),
     # ---- functions.h --------------------------------------------------------------------------------------
     ('manif::coeffs', 'g', 'd << manif::coeffs(X) << manif::data(X)[0];'),
